@@ -1,2 +1,4 @@
 // reference models shared between properties
 pub mod align;
+pub mod edit;
+pub mod hmm;
